@@ -85,8 +85,8 @@ def _strip_len_test(test: ast.AST, var: str, op: type, what: str) -> None:
 
 def _returns_stripped_join(fn: ast.FunctionDef, what: str) -> None:
     last = fn.body[-1]
-    if not (isinstance(last, ast.Return) and ast.unparse(last.value) == "Stripped('\\n'.join(commented_lines))"):
-        raise ExtractError(f"{what}: does not end in Stripped('\\n'.join(commented_lines))")
+    if not (isinstance(last, ast.Return) and re.fullmatch(r"Stripped\('\\n'\.join\(\w+\)\)", ast.unparse(last.value))):
+        raise ExtractError(f"{what}: does not end in Stripped('\\n'.join(<lines>))")
 
 
 def line_wrapper(repo: pathlib.Path, rel: str, cpp: bool = False) -> Dict[str, Any]:
@@ -183,6 +183,7 @@ def block_wrapper(repo: pathlib.Path, rel: str) -> Dict[str, Any]:
     lname = ast.unparse(s_lines.targets[0])
     if not (isinstance(s_writer, ast.Assign) and ast.unparse(s_writer.value) == "io.StringIO()"):
         raise ExtractError(f"{what}: writer is not an io.StringIO()")
+    wname = ast.unparse(s_writer.targets[0])
     open_ = _const_str(_call_arg(s_open, "write", what), what)
     if not (isinstance(s_loop, ast.For) and ast.unparse(s_loop.iter) == lname and isinstance(s_loop.target, ast.Name)):
         raise ExtractError(f"{what}: loop is not over {lname}")
@@ -196,8 +197,8 @@ def block_wrapper(repo: pathlib.Path, rel: str) -> Dict[str, Any]:
     pre, suf = _fstring_parts(_call_arg(cond.body[0], "write", what), var, what)
     empty = _const_str(_call_arg(cond.orelse[0], "write", what), what)
     close_ = _const_str(_call_arg(s_close, "write", what), what)
-    if not (isinstance(s_ret, ast.Return) and ast.unparse(s_ret.value) == "Stripped(writer.getvalue())"):
-        raise ExtractError(f"{what}: does not return Stripped(writer.getvalue())")
+    if not (isinstance(s_ret, ast.Return) and ast.unparse(s_ret.value) == f"Stripped({wname}.getvalue())"):
+        raise ExtractError(f"{what}: does not return Stripped({wname}.getvalue())")
     return {"repls": repls, "open": open_, "pre": pre, "suf": suf, "empty": empty, "close": close_}
 
 
